@@ -14,6 +14,7 @@ import (
 func init() { Registry["C16"] = c16 }
 
 func c16(r *Report) {
+	defer c16Seed8(r)
 	p := r.P
 	const d = "discovery"
 	vcPkg := goDid + "/vc"
